@@ -10,8 +10,8 @@ import CnlSpec.MakeFraction
   (floating values as C hex floats, results compared verbatim with glibc's `%a`/`%La`).
 * `C17 mf <fmt> <ity> <x>` — `cnl::fraction<ity>(x)`: result `num/den`, or `UB`, `UNREACHABLE`, `TIMEOUT`.
 -/
-namespace Cnl.Drv
-open Cnl Cnl.MakeFraction
+namespace Cnl.Drv.C17
+open Cnl Cnl.Drv Cnl.FloatIO Cnl.MakeFraction
 
 def checkCF (toks : List String) : Option Verdict :=
   match toks with
@@ -74,6 +74,10 @@ def checkMF (fm it xs : String) (res : String) : Option Verdict := do
     | _ => model
   some { model := model, spec := spec, cls := "", branch := "mf/" ++ fm ++ "/" ++ it ++ "/" ++ branch ++ (if clause.isEmpty then "" else "!" ++ clause),
          nontrivial := dom }
+
+end Cnl.Drv.C17
+namespace Cnl.Drv
+open Cnl.Drv.C17
 
 def checkC17 (toks : List String) (res : String) : Option Verdict :=
   match toks with
